@@ -178,7 +178,7 @@ def opt_some(ty, v):
 
 
 def opt_none(ty):
-    return Val(ty, sort(ty).constructor(0))
+    return Val(ty, sort(ty).constructor(0)())
 
 
 def opt_is_none(v):
